@@ -1,3 +1,4 @@
+import CkcVerif.Lemmas.TokensSplit
 import CkcVerif.Lemmas.Tokens
 import CkcVerif.Spec.Symbols
 import CkcVerif.Spec.Layout
@@ -105,6 +106,15 @@ example : fromIndex [0x41, 0x2660] = 268471337 ∧ fromIndex [0x74, 0x63, 0x21] 
 example : parseHand 2 [0x41, 0x53, 0x20, 0x9, 0x4B, 0x2660] = some [268471337, 134253349] := by decide +kernel
 example : parseHand 3 [0x41, 0x53, 0x20, 0x4B, 0x53] = none := by decide +kernel
 
+/-- **tokens are exactly the maximal whitespace-free runs, in order**: splitting at a whitespace character
+    splits the token list; the characters of the tokens are the non-whitespace characters of the text.
+    With `C12_tokens` (a whitespace-free run is one token) these equations determine `tokens` on every
+    string. -/
+theorem C12_tokens_split (a : List Nat) (w : Nat) (b : List Nat) (hw : isWhitespace w = true) :
+    tokens (a ++ w :: b) = tokens a ++ tokens b ∧ tokens ([] : List Nat) = [] ∧
+    (tokens (a ++ w :: b)).flatten = (a ++ w :: b).filter (fun c => !isWhitespace c) :=
+  ⟨tokens_append_ws a w b hw, rfl, tokens_flatten _⟩
+
 end C12
 
 #print axioms C12.C12_symbol_tables
@@ -116,3 +126,4 @@ end C12
 #print axioms C12.C12_hand
 #print axioms C12.C12_tokens
 #print axioms C12.C12_round_trip
+#print axioms C12.C12_tokens_split
